@@ -71,6 +71,8 @@ def handle (toks : List String) : Option String :=
     match isInside p lo hi with
     | .ok b => some (fmtBool b)
     | .error _ => some "AssertionError"
+  | "flow_ivp" :: ins :: rest =>
+    some (fmtFs (ivpFunc (ins == "1") (rest.map parseF)))
   | ["flow_idx", kind, h, v] =>
     let (h, v) := (decodeStr h, decodeStr v)
     match kind with
